@@ -145,6 +145,7 @@ ErrClass(err) ==
     [] err = "insufficient tokens" -> "tokens"
     [] err = "panic: negative coin amount" -> "negcoin"
     [] err = "transitive redelegation" -> "transitive"
+    [] err = "panic: Int overflow" -> "overflow"
     [] OTHER -> "other"
 
 P(kind) == [kind |-> kind, d |-> "", v |-> "", dst |-> "", a |-> "", x |-> "", order |-> "", limit |-> 0, ok |-> TRUE, err |-> "", errc |-> "", panic |-> FALSE,
@@ -182,7 +183,7 @@ Next ==
            r == Apply(st, e)
            post == WithBals(r.s)
            rec == [i |-> depth + 1, ev |-> e.ev, args |-> e,
-                   res |-> [ok |-> r.ok, err |-> r.err, panic |-> FALSE, feff |-> "", burned |-> "", hookErr |-> r.err],
+                   res |-> [ok |-> r.ok, err |-> r.err, errc |-> ErrClass(r.err), panic |-> FALSE, feff |-> "", burned |-> "", hookErr |-> r.err],
                    probes |-> IF e.ev = "BeginBlock" THEN <<>> ELSE SetToSeq1(ModelProbes(post))]
            gh2 == GhostNext(gh, st, rec, post)
            j == Judge(st, rec, post, gh, gh2)
